@@ -53,7 +53,7 @@ Fixpoint olatest (l : list obj) : option obj :=
   | x :: tl =>
       match olatest tl with
       | None => Some x
-      | Some y => if fst y <? fst x then Some x else Some y
+      | Some y => if fst y <=? fst x then Some x else Some y
       end
   end.
 
@@ -260,5 +260,14 @@ Definition wf_key (kr : krec) : Prop :=
 Definition below (kr : krec) (n : N) : Prop :=
   (forall r v, In (r, v) (k_objs kr) -> r <= n) /\ (forall r del, k_idx kr = Some (r, del) -> r <= n).
 
-(* the store is well formed and the allocator is at or ahead of every stored revision *)
-Definition Good (d : dstore) (n : N) : Prop := forall k, wf_key (dget d k) /\ below (dget d k) n.
+(* the store is well formed / and the allocator is at or ahead of every stored revision *)
+Definition WF (d : dstore) : Prop := Forall (fun kr => wf_key (snd kr)) d.
+Definition Good (d : dstore) (n : N) : Prop := Forall (fun kr => wf_key (snd kr) /\ below (snd kr) n) d.
+
+(* a request history served from allocator value n (one revision per attempt) *)
+Fixpoint run_ops (d : dstore) (n : N) (os : list hop) : dstore * N * list hres :=
+  match os with
+  | [] => (d, n, [])
+  | o :: tl => let out := do_op d n o in
+               let '(d', n', rs) := run_ops (d_store out) (n + 1) tl in (d', n', d_res out :: rs)
+  end.
